@@ -98,13 +98,38 @@ RBody(j) ==
                                                  Pipe(NameE("v"), "rec", <<StrE("w"), CallE("id", <<NameE("v")>>)>>)>>)),
                               DoS(TestE(NameE("v"), FALSE, "yes", <<StrE("t"), CallE("id", <<StrE("u"), NameE("v")>>), NameE("v")>>))>>, <<>>, FALSE)>>
 RBase == ND1 + ND2 + ND3
+(* equality and membership on strings that some number parser would accept and the language does not treat as numbers (not
+   decimal numerals): they are compared as strings - "nan" equals "nan", "Inf" differs from "Infinity", "0x10" from "16" *)
+EqStrs == << "nan", "NaN", "Nan", "Inf", "Infinity", "inf", "+Inf", "-inf", "0x1p4", "0x10", "16", "1_6", "0b1", "1e", "e1", "1e3x", "Bob", "" >>
+(* ordering of two strings that both spell numbers: by the numbers they spell, not by their characters *)
+OrdStrs == << "10", "9", "100", "20", "2", "2.0", "-1", "-10", "0.5", "1.25", "3" >>
+NO2 == Len(OrdStrs)
+NR3 == NO2 * NO2
+OrdBody(j) ==
+  LET a == StrE(OrdStrs[(j % NO2) + 1])  b == StrE(OrdStrs[(j \div NO2) + 1])
+      P(op, x, y) == PrintS(Tern(Bin(op, x, y), StrE("y"), StrE("n"))) IN
+  <<P("<", a, b), P("<=", a, b), P(">", a, b), P(">=", a, b), Text("|"), P("<", NameE("sa"), b), P(">", a, NameE("sb")), P(">=", NameE("sa"), NameE("sb")), Text("|"),
+    SetCap("ca", <<PrintS(a)>>), P("<", NameE("ca"), b), P(">", Pipe(a, "wrap", <<StrE("")>>), b)>>
+NE == Len(EqStrs)
+NR2 == NE * NE
+EqBody(j) ==
+  LET a == StrE(EqStrs[(j % NE) + 1])  b == StrE(EqStrs[(j \div NE) + 1]) IN
+  <<PrintS(Tern(Bin("==", a, b), StrE("eq"), StrE("ne"))), Text("|"), PrintS(Tern(Bin("!=", a, b), StrE("ne"), StrE("eq"))), Text("|"),
+    PrintS(Tern(Bin("in", a, ArrE(<<StrE("zz"), b>>)), StrE("in"), StrE("out"))), Text("|"),
+    PrintS(Tern(Bin("not in", a, ArrE(<<b, StrE("Bob2")>>)), StrE("out"), StrE("in"))), Text("|"),
+    DoS(CallE("id", <<Bin("==", NameE("sa"), b), Bin("==", a, a)>>))>>
 
-Picked == (0..(ND1 - 1)) \cup (RBase..(RBase + NR - 1)) \cup {ND1 + Offset + Stride * m : m \in 0..((ND2 + ND3 - 1 - Offset) \div Stride)}
+Picked == (0..(ND1 - 1)) \cup (RBase..(RBase + NR + NR2 + NR3 - 1)) \cup {ND1 + Offset + Stride * m : m \in 0..((ND2 + ND3 - 1 - Offset) \div Stride)}
 
 Init == GenInit(v_lvl, v_idx)
 Next == GenNext(v_lvl, v_idx, Picked, 64)
 
 Case(j) ==
+  IF j >= RBase + NR + NR2 THEN
+    LET q == j - RBase - NR - NR2 IN
+    RenderVec("C05-" \o ToString(j), "ordstr", Tpl1("t", OrdBody(q)), "t",
+              Ctx @@ ("sa" :> Str(S2B(OrdStrs[(q % NO2) + 1]))) @@ ("sb" :> Str(S2B(OrdStrs[(q \div NO2) + 1]))), [depth |-> 1]) ELSE
+  IF j >= RBase + NR THEN RenderVec("C05-" \o ToString(j), "eqstr", Tpl1("t", EqBody(j - RBase - NR)), "t", Ctx @@ ("sa" :> Str(S2B(EqStrs[((j - RBase - NR) % NE) + 1]))), [depth |-> 1]) ELSE
   IF j >= RBase THEN RenderVec("C05-" \o ToString(j), "repeat", Tpl1("t", RBody(j - RBase)), "t", Ctx, [depth |-> 1]) ELSE
   LET e == Expr(j)
       v == Eval(e, InitState(<<>>, Ctx, 6))
